@@ -143,6 +143,7 @@ func init() {
 			drain(capErr)
 			pre = fmt.Sprintf("order=%s titles=%s ", showStrs(readOrder(wl)), titleGraph(list))
 		}
+		panicPrefix = pre
 		r := spg.NewWLRecipe(t.int(), wl)
 		t.sepArg(r)
 		r.Capitalize = spg.CapScheme(t.str())
